@@ -1,3 +1,228 @@
-import GoStd.Bytes
+/-
+C13 — Route handling.
+
+"If the first Route entry designates the receiving listener exactly that one entry is consumed
+before routing; a first entry designating anything else is never consumed on that ground. The
+entry naming the next hop is relayed or stripped according to keep-next-hop-route, and all further
+Route entries are relayed unchanged and in their original order."
+
+Model: `Proxy.getNextRequestHopByRoute` (next-hop entry), the last step of
+`Proxy.handleRawMessage` (own entry). Abstraction: `Lemmas.routeStack`.
+"The first Route entry" is what `getRoute` reads: the decoded list of the FIRST Route-class header
+(an undecodable first Route header makes `getRoute` fail even if a later one would decode; the
+statements below are therefore phrased on `getRoute`, and `routeStack_head_of_getRoute` says that
+the entry read is the head of the stack).
+-/
+import Proxy.Model
+import Lemmas.Abs
+import Lemmas.Pipe
+open GoStd Sip Proxy Lemmas
+
 namespace Props.C13
+
+/-! ### the next-hop entry -/
+
+/-- keep-next-hop-route: every Route entry is relayed, in order -/
+theorem C13_keep (cfg : Cfg) (m : Message) (hk : cfg.keepNextHopRoute = true) :
+    routeStack cfg.cm (getNextRequestHopByRoute cfg m).2.headers = routeStack cfg.cm m.headers := by
+  unfold getNextRequestHopByRoute
+  cases hg : getRoute cfg.cm m with
+  | none => rfl
+  | some p =>
+    obtain ⟨r, m1⟩ := p
+    have h1 := (routeStack_getRoute cfg.cm hg).1
+    cases r with
+    | nil => exact h1
+    | cons rp rest =>
+      simp only [hk, Bool.not_true, Bool.false_eq_true, ↓reduceIte]
+      split <;> exact h1
+
+/-- otherwise exactly the entry that names the next hop (the head) is stripped; all further
+entries are relayed unchanged and in order. Nothing is stripped when no first entry can be read. -/
+theorem C13_strip (cfg : Cfg) (m : Message) (hk : cfg.keepNextHopRoute = false) :
+    routeStack cfg.cm (getNextRequestHopByRoute cfg m).2.headers =
+      match getRoute cfg.cm m with
+      | some (_ :: _, _) => (routeStack cfg.cm m.headers).tail
+      | _ => routeStack cfg.cm m.headers := by
+  unfold getNextRequestHopByRoute
+  cases hg : getRoute cfg.cm m with
+  | none => rfl
+  | some p =>
+    obtain ⟨r, m1⟩ := p
+    cases r with
+    | nil => exact (routeStack_getRoute cfg.cm hg).1
+    | cons rp rest =>
+      obtain ⟨m2, hp, hs⟩ := routeStack_popRoute_after_get cfg.cm hg
+      simp only [hk, Bool.not_false, ↓reduceIte, hp, Option.getD_some]
+      split <;> exact hs
+
+/-- the hop is read from the head entry of the Route stack: host, port (default 5060, 5061 for
+transport=tls) and transport parameter (default udp) of its SIP URI -/
+theorem C13_hop (cfg : Cfg) (m m1 : Message) (rp : RouteParam) (rest : List RouteParam) (u : SIPURI)
+    (hg : getRoute cfg.cm m = some (rp :: rest, m1)) (hu : rp.nameAddr.addr = .sip u) :
+    (getNextRequestHopByRoute cfg m).1 = some { host := u.host, port := u.getPort, transport := u.getTransport } ∧
+    (routeStack cfg.cm m.headers).head? = some rp := by
+  refine ⟨?_, routeStack_head_of_getRoute cfg.cm hg⟩
+  simp [getNextRequestHopByRoute, hg, hu]
+
+/-- a head entry that is not a SIP URI names no hop (routing falls back to the static table) -/
+theorem C13_hop_abs (cfg : Cfg) (m m1 : Message) (rp : RouteParam) (rest : List RouteParam) (s : Bytes)
+    (hg : getRoute cfg.cm m = some (rp :: rest, m1)) (hu : rp.nameAddr.addr = .abs s) :
+    (getNextRequestHopByRoute cfg m).1 = none := by
+  simp [getNextRequestHopByRoute, hg, hu]
+
+/-- no readable first Route entry: no hop, message untouched -/
+theorem C13_hop_none (cfg : Cfg) (m : Message) (hg : getRoute cfg.cm m = none) :
+    getNextRequestHopByRoute cfg m = (none, m) := by
+  simp [getNextRequestHopByRoute, hg]
+
+theorem C13_port (u : SIPURI) :
+    u.getPort = if u.port ≠ 0 then u.port
+      else if getParam u.params (str "transport") = some (str "tls") then 5061 else 5060 := by
+  unfold SIPURI.getPort SIPURI.getTransport
+  by_cases hp : u.port = 0
+  · simp only [hp, bne_self_eq_false, Bool.false_eq_true, ↓reduceIte, ne_eq, not_true_eq_false]
+    cases hq : getParam u.params (str "transport") with
+    | none =>
+      have : (str "udp" == str "tls") = false := by decide +kernel
+      simp [this]
+    | some t => simp
+  · simp [hp]
+
+/-- Via and Record-Route stacks are not touched by route processing -/
+theorem C13_other_stacks (cfg : Cfg)
+    (hVR : ∀ x, isSameHeader cfg.cm x viaName = true → isSameHeader cfg.cm x routeName = false)
+    (hRRR : ∀ x, isSameHeader cfg.cm x routeName = true → isSameHeader cfg.cm x recordRouteName = false)
+    (m : Message) :
+    viaStack cfg.cm (getNextRequestHopByRoute cfg m).2.headers = viaStack cfg.cm m.headers ∧
+    rrStack cfg.cm (getNextRequestHopByRoute cfg m).2.headers = rrStack cfg.cm m.headers := by
+  unfold getNextRequestHopByRoute
+  cases hg : getRoute cfg.cm m with
+  | none => exact ⟨rfl, rfl⟩
+  | some p =>
+    obtain ⟨r, m1⟩ := p
+    have h1 := viaStack_getRoute cfg.cm hVR hg
+    have h2 := rrStack_getRoute cfg.cm hRRR hg
+    cases r with
+    | nil => exact ⟨h1, h2⟩
+    | cons rp rest =>
+      have h3 : viaStack cfg.cm ((popRoute cfg.cm m1).getD m1).headers = viaStack cfg.cm m1.headers ∧
+          rrStack cfg.cm ((popRoute cfg.cm m1).getD m1).headers = rrStack cfg.cm m1.headers := by
+        cases hp : popRoute cfg.cm m1 with
+        | none => exact ⟨rfl, rfl⟩
+        | some m2 => exact ⟨viaStack_popRoute cfg.cm hVR hp, rrStack_popRoute cfg.cm hRRR hp⟩
+      simp only []
+      cases cfg.keepNextHopRoute <;> split <;> simp only [Bool.not_false, Bool.not_true, ↓reduceIte, Bool.false_eq_true]
+      all_goals first | exact ⟨h3.1.trans h1, h3.2.trans h2⟩ | exact ⟨h1, h2⟩
+
+/-! ### the own entry (last stage of `handleRawMessage`)
+
+`Lemmas.designatesListener cfg frm u`: the SIP URI has the listener's port (default 5060, 5061 for
+tls) and its host equals the listener's address literally or after resolution. -/
+
+/-- If the first Route entry designates the receiving listener exactly that entry is consumed; a
+first entry designating anything else (another host or port, a non-SIP URI) is not consumed, nor is
+anything when no first entry can be read. All further entries stay, in order. -/
+theorem C13_own_route (cfg : Cfg) (hc : ClassesOK cfg.cm) (st : St) (ev : RawEv) :
+    routeStack cfg.cm (handleRawMessage cfg st ev).2.headers =
+      match (getRoute cfg.cm ev.msg).map Prod.fst with
+      | some (rp :: _) =>
+        match rp.nameAddr.addr with
+        | .sip u => if designatesListener cfg ev.frm u then (routeStack cfg.cm ev.msg.headers).tail
+                    else routeStack cfg.cm ev.msg.headers
+        | .abs _ => routeStack cfg.cm ev.msg.headers
+      | _ => routeStack cfg.cm ev.msg.headers :=
+  routeStack_handleRawMessage cfg hc.via_route hc.cseq_route st ev
+
+/-- the entry in question is the head of the received Route stack -/
+theorem C13_own_route_head (cm : List (Bytes × Bytes)) (m : Message) (rp : RouteParam) (rest : List RouteParam)
+    (h : (getRoute cm m).map Prod.fst = some (rp :: rest)) : (routeStack cm m.headers).head? = some rp := by
+  cases hg : getRoute cm m with
+  | none => rw [hg] at h; cases h
+  | some p =>
+    obtain ⟨r, m1⟩ := p
+    rw [hg] at h
+    simp only [Option.map_some, Option.some.injEq] at h
+    subst h
+    exact routeStack_head_of_getRoute cm hg
+
+theorem C13_designates (cfg : Cfg) (frm : Listener) (u : SIPURI) :
+    designatesListener cfg frm u = true ↔
+      u.getPort = frm.port ∧
+        (u.host = frm.addr ∨ ∃ a b, getIp cfg u.host = some a ∧ getIp cfg frm.addr = some b ∧ a = b) := by
+  unfold designatesListener
+  simp only [Bool.and_eq_true, Bool.or_eq_true, beq_iff_eq]
+  constructor
+  · rintro ⟨h1, h2⟩
+    refine ⟨h1, ?_⟩
+    rcases h2 with h2 | h2
+    · exact Or.inl h2
+    · right
+      split at h2
+      · rename_i a b ha hb; exact ⟨a, b, ha, hb, by simpa using h2⟩
+      · cases h2
+  · rintro ⟨h1, h2⟩
+    refine ⟨h1, ?_⟩
+    rcases h2 with h2 | ⟨a, b, ha, hb, hab⟩
+    · exact Or.inl h2
+    · right; rw [ha, hb]; simpa using hab
+
+/-! ### end to end: the Route stack of every packet a request event produces -/
+
+/-- The message serialised has the Route stack that `getNextRequestHopByRoute` leaves when applied
+to the message coming out of `handleRawMessage` — i.e. `C13_own_route` followed by
+`C13_keep` / `C13_strip`; no later stage (static routing, dialog lookup, own Via/Record-Route,
+transaction lookup) touches a Route entry. -/
+theorem C13_step (cfg : Cfg) (hc : ClassesOK cfg.cm) (st : St) (ev : RawEv)
+    (hreq : isRequest ev.msg = true) (o : Out) (ho : o ∈ (step cfg st ev).2) :
+    ∃ m' : Message, o.data = m'.bytes cfg.cm ∧
+      routeStack cfg.cm m'.headers =
+        if cfg.keepNextHopRoute then routeStack cfg.cm (handleRawMessage cfg st ev).2.headers
+        else
+          match getRoute cfg.cm (handleRawMessage cfg st ev).2 with
+          | some (_ :: _, _) => (routeStack cfg.cm (handleRawMessage cfg st ev).2.headers).tail
+          | _ => routeStack cfg.cm (handleRawMessage cfg st ev).2.headers := by
+  obtain ⟨m', _, hd, _, _, hr, _⟩ := step_request_out cfg hc st ev hreq o ho
+  refine ⟨m', hd, ?_⟩
+  rw [hr]
+  cases hk : cfg.keepNextHopRoute with
+  | true => simpa using C13_keep cfg _ hk
+  | false => simpa using C13_strip cfg _ hk
+
+/-! non-vacuity: the example event (`Lemmas.Pipe`): first Route entry `<sip:p1;lr>` does not
+designate the listener 10.0.0.1:5060 and is not consumed; it names the next hop and is stripped
+(keep-next-hop-route off). A Route entry naming the listener is consumed. -/
+
+example : (step exCfg exSt (exEv exMsg)).2.length = 1 ∧ isRequest (exEv exMsg).msg = true ∧
+    exCfg.keepNextHopRoute = false := by decide +kernel
+
+example : (routeStack exCfg.cm (handleRawMessage exCfg exSt (exEv exMsg)).2.headers).length = 2 := by
+  decide +kernel
+
+def exMsgOwnRoute : Message :=
+  { exMsg with headers := { name := str "Route", value := .raw (str "<sip:10.0.0.1;lr>") } :: exMsg.headers }
+
+example : (routeStack exCfg.cm exMsgOwnRoute.headers).length = 3 ∧
+    (routeStack exCfg.cm (handleRawMessage exCfg exSt (exEv exMsgOwnRoute)).2.headers).length = 2 := by
+  decide +kernel
+
+example : designatesListener exCfg exListener
+    { scheme := str "sip", host := str "10.0.0.1", params := [⟨str "lr", []⟩] } = true := by decide +kernel
+
+/-! non-vacuity: on the example message of `Lemmas.Abs` the first Route entry is a SIP URI -/
+
+example : (getRoute realCm exMsg).map (fun p => p.1.map (fun rp => rp.nameAddr.addr.sipURI?.map (·.host))) =
+    some [some (str "p1"), some (str "p2")] := by decide +kernel
+
+/-- `C13_keep` / `C13_strip`: both settings occur -/
+example : ({ exCfg with keepNextHopRoute := true }).keepNextHopRoute = true ∧ exCfg.keepNextHopRoute = false :=
+  ⟨rfl, rfl⟩
+
+/-- `C13_hop_abs`: a first Route entry that is not a SIP URI -/
+example : (getRoute realCm { exMsg with headers := [{ name := routeName, value := .raw (str "<tel:123>") }] }).map
+    (fun p => p.1.map (fun rp => rp.nameAddr.addr)) = some [.abs (str "tel:123")] := by decide +kernel
+
+/-- `C13_hop_none`: no Route header -/
+example : getRoute realCm exMsgNoRoute = none := by decide +kernel
+
 end Props.C13
